@@ -315,3 +315,107 @@ def count_lines(path, prefix):
             if line.startswith(prefix):
                 n += 1
     return n
+
+
+# ------------------------------------------------------------------ common patterns
+def gen_and_replay(ctx, module, cfg, binp, mode="replay", timeout=1500, extra_args=None, workers=16,
+                   harness_timeout=1500, simulate=None, depth=None):
+    """TLC prints behaviours (T lines); the harness replays each into the real code.
+    Returns (tlc_result, harness_summary)."""
+    g = ctx.tlc(module, cfg, timeout=timeout, count=False, workers=workers, simulate=simulate, depth=depth,
+                out_name="%s.%s.gen.out" % (module, os.path.basename(cfg)))
+    if g.status != "ok":
+        raise Infra("generator %s/%s failed: %s\n%s" % (module, cfg, g.cmd, g.detail or g.tail))
+    recs, _, _ = ctx.harness(binp, [mode, g.out_path] + (extra_args or []), timeout=harness_timeout)
+    s = ctx.summary(recs)
+    ctx.take_mismatches(recs)
+    if not s.get("behaviours"):
+        raise Infra("no behaviours replayed from %s/%s" % (module, cfg))
+    ctx.cov["traces_validated_against_impl"] += s["behaviours"]
+    ctx.cov["evaluations"] += s.get("steps", s["behaviours"])
+    ctx.cov["distinct_nontrivial"] += s.get("nontrivial", 0)
+    for smp in (s.get("samples") or [])[:2]:
+        ctx.sample({"replayed": smp})
+    try:
+        os.unlink(g.out_path)
+    except OSError:
+        pass
+    return g, s
+
+
+def record_and_validate(ctx, binp, args, trace_module, trace_cfg, name="trace.ndjson", sig="trace-rejected",
+                        timeout=900, harness_timeout=900):
+    """The harness records what the real code does (ndjson); the Trace spec judges it.
+    Returns (accepted, trace_path, harness_summary)."""
+    tr = os.path.join(ctx.scratch, name)
+    recs, _, _ = ctx.harness(binp, [args[0], tr] + list(args[1:]), timeout=harness_timeout)
+    s = ctx.summary(recs)
+    ctx.take_mismatches(recs)
+    ok, at, rec, _ = ctx.validate_trace(trace_module, trace_cfg, tr, timeout=timeout)
+    if ok:
+        ctx.cov["traces_validated_against_impl"] += s.get("traces", 1)
+        ctx.cov["evaluations"] += s.get("records", 0)
+        with open(tr) as fh:
+            head = []
+            for i, line in enumerate(fh):
+                if i >= 4:
+                    break
+                head.append(json.loads(line))
+        ctx.sample({"recorded": head[1:3]})
+    else:
+        ctx.mismatch(sig, "%s rejects the recorded history at record %s: %s" % (trace_module, at, str(rec)[:1500]),
+                     {"kind": "trace", "prefix": trace_prefix(tr, at)})
+    return ok, tr, s
+
+
+def trace_prefix(path, at, reset_marker='"Reset"'):
+    """records of the trace the rejected record belongs to, up to and including it"""
+    if at is None:
+        return None
+    lines = open(path).read().splitlines()
+    i = min(at - 1, len(lines) - 1)
+    j = i
+    while j > 0 and reset_marker not in lines[j]:
+        j -= 1
+    return [json.loads(x) for x in lines[j:i + 1]]
+
+
+def corrupt_demo(ctx, tr, trace_module, trace_cfg, pick, mutate, keep_after=30):
+    """Binding demonstration: corrupt one record of an accepted trace (pick(rec)->bool selects it,
+    mutate(rec) changes it in place); the Trace spec must reject exactly there."""
+    lines = open(tr).read().splitlines()
+    for i, line in enumerate(lines):
+        rec = json.loads(line)
+        if pick(rec):
+            mutate(rec)
+            lines[i] = json.dumps(rec)
+            p = os.path.join(ctx.scratch, "corrupt-%s.ndjson" % trace_module)
+            open(p, "w").write("\n".join(lines[:i + keep_after]) + "\n")
+            ok, at, _, _ = ctx.validate_trace(trace_module, trace_cfg, p)
+            if ok or at != i + 1:
+                raise Infra("binding demonstration failed: corrupted record %d not rejected there (ok=%s at=%s)" % (i + 1, ok, at))
+            return "corrupted record %d rejected at record %d" % (i + 1, at)
+    return "no suitable record found"
+
+
+def replay_generic(ctx, path, cmd, trace_module=None, trace_cfg=None):
+    data = json.load(open(path))
+    rp = data.get("replay")
+    if isinstance(rp, dict) and rp.get("kind") == "trace":
+        p = os.path.join(ctx.scratch, "replay.ndjson")
+        with open(p, "w") as fh:
+            for rec in rp["prefix"]:
+                fh.write(json.dumps(rec) + "\n")
+        ok, at, rec, _ = ctx.validate_trace(trace_module, trace_cfg, p)
+        print("recorded trace %s by %s%s" % ("accepted" if ok else "REJECTED", trace_module, "" if ok else " at %s: %s" % (at, rec)))
+        print("(a recorded trace is re-validated as recorded; re-run the check to re-record against the working tree)")
+        return
+    p = os.path.join(ctx.scratch, "case.json")
+    json.dump(rp, open(p, "w"))
+    binp = ctx.build(cmd)
+    recs, _, _ = ctx.harness(binp, ["one", p])
+    for r in recs:
+        if r.get("kind") == "mismatch":
+            print("REPRODUCED sig=%s %s" % (r["sig"], r["detail"][:1000]))
+            return
+    print("not reproduced on the working tree")
